@@ -81,6 +81,11 @@ CHECKS = {
     text="Kernel-checked for every history and request, for any evaluator and any compiler that uses the evaluator only by calling it: the result after the history equals the result in a fresh process (invariant: the constexpr cache only holds (script, value of that script); the output mode is overwritten from the request before use; the hash set is filled before first use). The inventory of module-level mutable state (rebound globals, mutated containers, attribute writes through modules) is regenerated from the package on every run and proved equal to the list the model accounts for; the skeleton of compile_code is checked to copy the options before the directive scanner writes and to set the output mode before compiling. Histories of 5-60 requests from a pool (pragma-carrying sources with contradicting caller options, compact/verbose alternation, constexpr users, failing and multi-module requests) are served by one process each and compared with fresh-process results; the caller's options and sources are compared before/after.",
     note="Trusted: Coq kernel; GlobalState.v (compiler as an oracle, deterministic evaluator); translator globals_.py. State held inside objects (device singletons) is not inventoried statically; covered by the history runs only.",
     design="4 C11"),
+ "C12": dict(
+    category="proof", technique="Coq proofs about the rejection test (word search model, every text) and the integer transport (decimal text -> emitted literal -> value, every integer); regenerated skeletons of the constexpr mechanisms; generated functions x arguments x call positions compared with direct evaluation and with literal substitution",
+    text="Kernel-checked: for every text in which open, eval or exec stands as a word (delimited by non-word characters or the ends), the model of the rejection test answers 'forbidden'; the source applies exactly that test and raises (skeleton of check_constexpr_function re-read each run); a decorated function is checked, recorded and its body emptied; CompilerPassGatherCode.run appends lines only inside the per-function loop and skips constexpr functions first; every integer a function returns arrives unchanged in the literal the chip reads (json decimal text, format_int in either output mode, literal reader). The VALUE is computed by CPython and is not modelled: generated pure functions (typed grammar over ints, floats, strings, booleans, enums, HASH; fully parenthesised to stress re-serialisation; branches, loops, defaults, keywords, nested constexpr calls) are compiled at 10 call positions (main, expressions, function bodies, loops, arguments, Stack subscripts, three library placements) under rotating options and compared with direct evaluation in the checker's interpreter (own CRC-32) and with the program that has the literal in the call's place and no definition.",
+    note="Partial: the theorem part covers rejection, emission of no code and integer transport; 'the value is what ordinary Python evaluation returns' is a statement about CPython running a generated script and is decided by the correspondence runs only (sampled). Trusted: Coq kernel; Constexpr.v word-search model (compared with CPython's re each run); translator skeletons.py; astroid's as_string only through the runs. Two open known findings (non-finite result, string result as HASH argument: internal compiler errors).",
+    design="4 C12"),
  "C04": dict(
     category="proof", technique="Coq proofs about a faithful model of register_assignment.py (interval colouring for all symbol lists, scope ordering for all call graphs, register range / limit) + correspondence with assign_colors and with the allocation decisions exported by the hook + liveness-based interference check and register-pressure runs",
     text="Kernel-checked: for EVERY list of symbols (any order, any lifetimes) assign_colors gives different colours to symbols with overlapping lifetimes (stable sort, expiry and free-list reuse modelled as written); for EVERY call graph the scope ordering, when it succeeds, places every scope after its callers, and any call cycle (recursion) makes it fail; a scope only receives registers among r0..r15 that its callers have not blocked, and a colour beyond the available registers is the out-of-registers error. The colouring model is compared with the real assign_colors on random interval sets; on every compile the exported scope order, available lists, colours and map are re-derived, a liveness-based interference check runs on the pre-allocation instruction stream (CFG with call/return edges), and register-pressure programs (3..20 simultaneously live variables, loop-carried variables, values live across call chains) are executed against the source.",
